@@ -26,6 +26,11 @@ def grammar_mutants(f):
     ck = toks[-2]
     for v in ("xyz", "", "12", "1234", " 12", "+12", "1_2", "-01"):
         out.append(("cksum=" + v, rebuild(toks[:-2] + ["10=" + v, ""])))
+    # the right CheckSum value in the wrong lexical form (unpadded, over-padded)
+    true = int(ck[3:])
+    for v in (str(true), "0" + ck[3:], "%02d" % true, " %d" % true, "%d " % true):
+        if v != ck[3:]:
+            out.append(("cksum_form=" + v, rebuild(toks[:-2] + ["10=" + v, ""])))
     out.append(("tag=ab", rebuild(toks[:3] + ["ab=1"] + toks[3:])))
     out.append(("tag=1.0", rebuild(toks[:3] + ["1.0=1"] + toks[3:])))
     out.append(("noeq", rebuild(toks[:3] + ["58"] + toks[3:])))
@@ -75,7 +80,19 @@ def run(ctx):
         dec_in.append(("rnd%d" % i, b + (follow if rng.random() < 0.5 else b""), None))
     # (2) grammar-aware malformed frames + (3) single-byte corruptions, each followed by valid traffic
     peer2 = W.peer_frames(1, start=2)[0]    # the frame that gets corrupted carries number 2
-    targets = [peer2] + (corpus if not q else corpus[:2])
+    # frames whose CheckSum needs zero padding (one and two leading zeros): found by varying the payload
+    from ..net import PeerCodec
+    pc = PeerCodec("B", "A")
+    small = {}
+    for k in range(4000):
+        f = pc.frame("APP", 2, pay="x%d" % k)
+        c = int(f[-4:-1])
+        cls = 1 if c < 10 else (2 if c < 100 else 0)
+        if cls and cls not in small:
+            small[cls] = f
+        if len(small) == 2:
+            break
+    targets = [peer2] + [small[k] for k in sorted(small)] + (corpus if not q else corpus[:2])
     for ti, f in enumerate(targets):
         muts = grammar_mutants(f) + list(byte_mutants(f, full=(not q and ti == 0)))
         if q and len(muts) > 2500:
